@@ -39,6 +39,31 @@ static const char *DOMAIN = "example.org";
 static const QByteArray STALE_NONCE = "c3RhbGUgbm9uY2Ugb2YgYW4gZWFybGllciBzZXNzaW9u";   // nonce of an earlier, recorded session
 static bool g_activity = false;
 
+// ---------------------------------------------------------------------------------------------- tokens
+// Op words cannot contain blanks, ':', ';', '+' or TAB: "~XX" stands for the byte XX (hex, UTF-8), "~LONG" for 300 times 'x'.
+static QString dec(const QString &w)
+{
+    QByteArray out;
+    const QByteArray in = w.toUtf8();
+    for (int i = 0; i < in.size(); i++) {
+        if (in[i] == '~' && in.mid(i + 1, 4) == "LONG") { out += QByteArray(300, 'x'); i += 4; }
+        else if (in[i] == '~' && i + 2 < in.size() + 0 && isxdigit((unsigned char)in[i + 1]) && isxdigit((unsigned char)in[i + 2])) { out += char(in.mid(i + 1, 2).toInt(nullptr, 16)); i += 2; }
+        else out += in[i];
+    }
+    return QString::fromUtf8(out);
+}
+// how addresses are printed in observations (the Lean driver prints the same): everything outside a small safe set as ~xx
+static QString esc(const QString &v)
+{
+    QString out;
+    for (unsigned char c : v.toUtf8()) {
+        if (isalnum(c) || strchr("@./_%{}-", c)) out += QChar(c);
+        else out += QString("~%1").arg(int(c), 2, 16, QChar('0'));
+    }
+    return out;
+}
+static QString xmlAttrEscape(QString v) { return v.replace("&", "&amp;").replace("<", "&lt;").replace("'", "&apos;").replace("\"", "&quot;"); }
+
 // ---------------------------------------------------------------------------------------------- password checker
 // Table checker.  The answer is computed when the request is made (as QXmppPasswordChecker's own implementation
 // does) but the reply object finishes only when the harness delivers it: QXmppPasswordReply is an asynchronous
@@ -132,8 +157,8 @@ struct Canon {
     QString jid(const QString &j)
     {
         int p = j.indexOf('/');
-        if (p < 0) return j;
-        return j.left(p) + "/" + res(j.mid(p + 1));
+        if (p < 0) return esc(j);
+        return esc(j.left(p)) + "/" + esc(res(j.mid(p + 1)));
     }
 };
 
@@ -246,7 +271,7 @@ static QByteArray digestResponse(const QString &claimed, const QString &secretUs
     const QByteArray KD = HA1 + ':' + NONCE + ':' + nc + ':' + cnonce + ":auth:" + HA2;
     const QByteArray resp = QCryptographicHash::hash(KD, QCryptographicHash::Md5).toHex();
     return "charset=utf-8,cnonce=cn,digest-uri=\"" + uri + "\",nc=" + nc + ",nonce=\"" + NONCE + "\",qop=" + (qopOk ? "auth" : "auth-int") +
-        ",realm=" + DOMAIN + ",response=" + resp + ",username=" + claimed.toUtf8();
+        ",realm=" + DOMAIN + ",response=" + resp + ",username=\"" + QString(claimed).replace("\\", "\\\\").replace("\"", "\\\"").toUtf8() + "\"";
 }
 
 // payload words:  -            empty
@@ -262,6 +287,7 @@ static QByteArray payloadText(const QString &w, const QByteArray &nonce)
     if (w == "m") return b64("junk");
     if (w == "x") return "!!!";
     auto f = w.split(':');
+    for (int i = 1; i < f.size(); i++) f[i] = dec(f[i]);
     if (f[0] == "c" && f.size() == 3) return b64(QByteArray(1, '\0') + f[1].toUtf8() + QByteArray(1, '\0') + f[2].toUtf8());
     if (f[0] == "z" && f.size() == 4) return b64(f[1].toUtf8() + QByteArray(1, '\0') + f[2].toUtf8() + QByteArray(1, '\0') + f[3].toUtf8());   // authzid\0authcid\0password
     if (f[0] == "a" && f.size() == 4) return b64(digestResponse(f[1], f[2], f[3], true, nonce) + ",authzid=\"victim@example.org\"");
@@ -269,7 +295,12 @@ static QByteArray payloadText(const QString &w, const QByteArray &nonce)
     if (f[0] == "r" && f.size() == 4) return b64(digestResponse(f[1], f[2], f[3], true, STALE_NONCE));
     return "";
 }
-static QString attr(const char *name, const QString &v) { return v == "-" ? QString() : QString(" %1='%2'").arg(name, v); }
+// "-" = attribute absent, "\"\"" = present and empty, anything else = that value
+static QString attr(const char *name, const QString &v)
+{
+    if (v == "-") return QString();
+    return QString(" ") + name + "='" + (v == "\"\"" ? QString() : xmlAttrEscape(dec(v))) + "'";
+}
 
 static QByteArray opXml(const QStringList &w, const QByteArray &nonce = QByteArray())
 {
@@ -287,7 +318,7 @@ static QByteArray opXml(const QStringList &w, const QByteArray &nonce = QByteArr
     if (k == "abort1") return "<abort xmlns='urn:ietf:params:xml:ns:xmpp-sasl'/>";
     if (k == "abort2") return "<abort xmlns='urn:xmpp:sasl:2'/>";
     if (k == "bind")
-        return "<iq type='set' id='b1'><bind xmlns='urn:ietf:params:xml:ns:xmpp-bind'>" + (w[1] == "-" ? QByteArray() : "<resource>" + w[1].toUtf8() + "</resource>") + "</bind></iq>";
+        return "<iq type='set' id='b1'><bind xmlns='urn:ietf:params:xml:ns:xmpp-bind'>" + (w[1] == "-" ? QByteArray() : "<resource>" + xmlAttrEscape(dec(w[1])).toUtf8() + "</resource>") + "</bind></iq>";
     if (k == "session") return "<iq type='set' id='s1'><session xmlns='urn:ietf:params:xml:ns:xmpp-session'/></iq>";
     if (k == "msg") return ("<message" + attr("from", w[1]) + attr("to", w[2]) + "><body>hi</body></message>").toUtf8();
     if (k == "pres") return ("<presence" + attr("type", w[1]) + attr("from", w[2]) + attr("to", w[3]) + "/>").toUtf8();
@@ -380,7 +411,10 @@ struct Fixture {
     explicit Fixture(bool stockFlavour = false) : stock(stockFlavour)
     {
         // the last account is what a registration-open / pass-through checker would accept
-        checker.table = { { "victim", "vpw" }, { "mallory", "mpw" }, { "eve", "epw" }, { "victim@example.org/x", "xpw" } };
+        checker.table = { { "victim", "vpw" }, { "mallory", "mpw" }, { "eve", "epw" }, { "victim@example.org/x", "xpw" },
+                          // legal but awkward account names: format place markers, quotes, blanks, non-ASCII, very long
+                          { "ops.%2", "opw" }, { "%1", "p1" }, { "100%", "p2" }, { "a%%b", "p3" }, { "{0}", "p4" }, { "back\\slash", "p5" },
+                          { "q'uo\"te", "p6" }, { "sp ace", "p7" }, { QString::fromUtf8("j\xc3\xbcrgen"), "p8" }, { QString(300, 'x'), "p9" } };
         stockChecker.table = checker.table;
         if (!getenv("C16_REAL_DELETES")) qApp->installEventFilter(&hold);
         server = std::make_unique<QXmppServer>();
@@ -573,6 +607,7 @@ struct Oracle {
         if (w[0] == "auth1" || w[0] == "auth2") pl = w[2];
         else if (w[0] == "resp1" || w[0] == "resp2") pl = w[1];
         auto f = pl.split(':');
+        for (int i = 1; i < f.size(); i++) f[i] = dec(f[i]);
         if (w[0] == "auth1" || w[0] == "auth2" || w[0] == "open") exchange.clear();   // a new exchange starts from nothing
         QString u;
         if (f[0] == "c" && f.size() == 3 && table.contains(f[1]) && table[f[1]] == f[2]) u = f[1];
@@ -580,7 +615,7 @@ struct Oracle {
         if (f[0] == "d" && f.size() == 5 && f[1] == f[2] && table.contains(f[2]) && table[f[2]] == f[3]) u = f[1];
         if (f[0] == "a" && f.size() == 4 && f[1] == f[2] && table.contains(f[2]) && table[f[2]] == f[3]) u = f[1];
         // "r:" (a recorded response over a stale nonce) proves nothing
-        if (!u.isNull()) { approved << u; exchange << u; }
+        if (!u.isNull()) { approved << esc(u); exchange << esc(u); }   // (as addresses are printed in the observations)
     }
     static QString bare(const QString &j) { int p = j.indexOf('/'); return p < 0 ? j : j.left(p); }
     // the address is literally user@domain or user@domain/resource for an approved user
@@ -835,13 +870,14 @@ static std::string randomOp(Rng &r)
     auto payload = [&]() -> std::string {
         switch (r.below(10)) {
         case 0: return "-"; case 1: return "m"; case 2: return "x"; case 3: case 4: return dresp();
-        case 5: return r.coin() ? "c:victim@example.org/x:xpw" : "z:victim@example.org:mallory:mpw";
+        case 5: return pick(r, { "c:victim@example.org/x:xpw", "z:victim@example.org:mallory:mpw", "c:ops.%2:opw", "c:sp~20ace:p7", "c:%1:p1" });
         default: return creds();
         }
     };
     auto mech = [&]() { return pick(r, { "PLAIN", "PLAIN", "DIGEST-MD5", "DIGEST-MD5", "ANONYMOUS", "X-FOO" }); };
-    auto from = [&]() { return pick(r, { "-", "-", "-", "mallory@example.org/r", "mallory@example.org", "eve@example.org/r2", "victim@example.org/v", "victim@example.org", "/r", "x", "example.org", "Mallory@example.org/r", "victim@example.org/x@example.org" }); };
-    auto to = [&]() { return pick(r, { "-", "victim@example.org/v", "victim@example.org/v", "victim@example.org", "example.org", "mallory@example.org/r", "mallory@example.org", "nobody@example.org", "sub.example.org", "other.net", "/r" }); };
+    auto from = [&]() { return pick(r, { "-", "-", "-", "mallory@example.org/r", "mallory@example.org", "eve@example.org/r2", "victim@example.org/v", "victim@example.org", "/r", "x", "example.org", "Mallory@example.org/r", "victim@example.org/x@example.org",
+                                "\"\"", "\"\"", "~20", "ops.%2@example.org/r", "ops.example.org@example.org" }); };
+    auto to = [&]() { return pick(r, { "-", "victim@example.org/v", "victim@example.org/v", "victim@example.org", "example.org", "mallory@example.org/r", "mallory@example.org", "nobody@example.org", "sub.example.org", "other.net", "/r", "\"\"" }); };
     switch (r.below(20)) {
     case 0: return r.below(5) ? "open example.org" : "open evil.org";
     case 1: return "auth1 " + mech() + " " + payload();
@@ -1063,6 +1099,39 @@ int main(int argc, char **argv)
         "2 msg mallory@example.org/r victim@example.org/v", "1 close", "2 close", "2 auth1 PLAIN c:eve:epw", "2 deliver 0", "1 iq get - mallory@example.org/r2",
         "2 msg - victim@example.org/v", "1 auth1 X-FOO - + bind r", "2 resp1 - + bind r2 + msg - mallory@example.org/r",
     };
+    // legal but awkward account names (format place markers, quotes, blanks, non-ASCII, very long): log in with PLAIN and with
+    // DIGEST-MD5, SASL and SASL2, bind, send with `from` absent / own full / own bare; the address must be the literal name
+    {
+        const std::vector<std::pair<std::string, std::string>> odd = {
+            { "ops.%2", "opw" }, { "%1", "p1" }, { "100%", "p2" }, { "a%%b", "p3" }, { "{0}", "p4" }, { "back~5cslash", "p5" },
+            { "q~27uo~22te", "p6" }, { "sp~20ace", "p7" }, { "j~c3~bcrgen", "p8" }, { "~LONG", "p9" } };
+        for (int stock = 0; stock < 2; stock++)
+            for (auto &acc : odd) {
+                const std::string u = acc.first, pw = acc.second, own = u + "@example.org";
+                const Script tail = { "bind r", "msg - victim@example.org/v", "msg " + own + "/r victim@example.org/v", "msg " + own + " victim@example.org/v",
+                                      "pres subscribe - victim@example.org", "iq get - victim@example.org/v", "msg ops.example.org@example.org victim@example.org/v",
+                                      "2 open example.org", "2 auth1 PLAIN c:eve:epw", "2 deliver 0", "2 bind r", "2 msg - " + own + "/r", "2 msg - " + own };
+                std::vector<Script> heads = {
+                    { "open example.org", "auth1 PLAIN c:" + u + ":" + pw, "deliver 0" },
+                    { "open example.org", "auth2 PLAIN c:" + u + ":" + pw + " b:", "deliver 0", "msg - victim@example.org/v" },
+                    { "open example.org", "auth1 DIGEST-MD5 -", "resp1 d:" + u + ":" + u + ":" + pw + ":a", "deliver 0", "resp1 -" },
+                    { "open example.org", "auth1 PLAIN c:" + u + ":bad", "deliver 0" },
+                };
+                for (auto &h : heads) { Script sc = h; sc.insert(sc.end(), tail.begin(), tail.end()); runScript(sc, stock, true); }
+            }
+        stat("awkward_account_names", (long long)odd.size());
+    }
+    // `from` / `to` absent, present but empty, white space, own bare / full jid, somebody else's -- for message, presence and iq
+    {
+        std::vector<std::string> fromToAlpha;
+        for (std::string kind : { "msg", "pres -", "pres subscribe", "iq get", "iq result" })
+            for (std::string from : { "-", "\"\"", "~20", "mallory@example.org", "mallory@example.org/r", "victim@example.org/v" })
+                for (std::string to : { "victim@example.org/v", "victim@example.org", "\"\"", "-" })
+                    fromToAlpha.push_back(kind + " " + from + " " + to);
+        for (int stock = 0; stock < 2; stock++)
+            enumerate({ "open example.org", "auth1 PLAIN c:mallory:mpw", "deliver 0", "bind r" }, fromToAlpha, thorough && !stock ? 2 : 1, stock);
+        stat("alphabet_from_to", (long long)fromToAlpha.size());
+    }
     // overlapping SASL exchanges with a deferred checker reply: a second <auth/> (PLAIN, DIGEST-MD5, SASL2) between the first
     // one and its reply, replies delivered late and out of order; and several elements in one write after a failure
     const std::vector<std::string> overlapAlpha = {
